@@ -109,9 +109,27 @@ def canon_atom(atom, variant: str, qparam: str | None, closures=None):
                     and body[2][1] in (('param', 'arg1'),):
                 l_ = canon_operand(body[2][0], variant, qparam)
                 return ('any_in', m, l_)
+    if k == 'call' and atom[1] == 'Iterator::all' and closures is not None:
+        # all(|h| !L.contains(h)) over list M  ==  not any(|h| L.contains(h))  ->  ('neg', ('any_in', M, L))
+        it, clo = atom[2]
+        if it[0] == 'iter' and clo[0] == 'closure':
+            m = canon_operand(it[1], variant, qparam)
+            body = closures(clo)
+            if body is not None and body[0] == 'op' and body[1] == 'Not' and len(body[2]) == 1:
+                inner = body[2][0]
+                if inner[0] == 'call' and inner[1] in ('slice::contains', 'Vec::contains') and inner[2][1] in (('param', 'arg1'),):
+                    return ('neg', ('any_in', m, canon_operand(inner[2][0], variant, qparam)))
     if k == 'variant' and atom[2] == 'Pattern':
         return ('variant', canon_operand(atom[1], variant, qparam))
     raise AnalysisError(f'atom outside the analysed subset in {variant} arm: {mireval.show(atom)}')
+
+
+def canon_lit(atom, pol, variant: str, qparam: str | None, closures=None):
+    """(canonical atom, polarity); an atom that is the negation of a canonical one flips the polarity"""
+    c = canon_atom(atom, variant, qparam, closures)
+    if c[0] == 'neg':
+        return c[1], (not pol if isinstance(pol, bool) else pol)
+    return c, pol
 
 
 def arms_of(r: Rust, short: str) -> dict[str, list[mireval.Path]]:
@@ -139,7 +157,7 @@ def judgement_df(r: Rust, short: str, variant: str, paths: list[mireval.Path]) -
     outcomes = []
     clos = lambda clo: r.ev.closure_value(r.ev._closure_by_loc[clo[1]], clo)  # noqa: E731
     for p in paths:
-        conds = tuple((canon_atom(a, variant, q, clos), o) for a, o in p.conds[1:])
+        conds = tuple(canon_lit(a, o, variant, q, clos) for a, o in p.conds[1:])
         if p.end == 'return':
             rv = p.ret
             if rv[0] == 'bool':
@@ -149,7 +167,7 @@ def judgement_df(r: Rust, short: str, variant: str, paths: list[mireval.Path]) -
                 if atom[0] == 'const':
                     res = ('const', atom[1] == pol)
                 else:
-                    res = ('lit', canon_atom(atom, variant, q, clos), pol)
+                    res = ('lit',) + canon_lit(atom, pol, variant, q, clos)
         elif p.end == 'diverge':
             res = ('raise', p.why)
         else:
